@@ -1,6 +1,7 @@
 package bcheck
 
 import (
+	"crypto/tls"
 	"fmt"
 	"os"
 	"sort"
@@ -29,7 +30,7 @@ func init() {
 	}
 	Registry["C15"] = &Check{
 		Scenarios: c15Scenarios,
-		Rule: "Server.Serve with three connections plus a fourth offered after the fault; accept script: every placement of <=2 temporary accept errors among the offers; connection A suffers one fault from {handler panic, undecodable header with trailing bytes, disconnect in the middle of a message} at every position 1..3 of its three-message sequence; connections B, C and D exchange two request/answer pairs each with bodies that name their connection (the handler checks that the body belongs to the header); after A's fault the application registers a further handler on the running ServeMux, and the first handler of D also writes to A's (failed) diam.Conn, which must simply return an error; C and D are offered only after that, and C's first message is held inside its body until D has been served completely (so a read buffer shared across connections is overwritten); every ordering of environment steps, timers and blocking hand-overs at preemption bound 0 (quick: each accept placement with three of the nine fault/position pairs; thorough: the full product, and preemption bound 1 for the placement without accept errors); back-off sleeps run on the virtual clock. Three further scenarios (preemption bound 1, thorough 2) put the fault at the third message of a connection whose first handler has requested CloseNotify, so that the notifier goroutine is running when the connection fails.",
+		Rule: "Server.Serve with three connections plus a fourth offered after the fault; accept script: every placement of <=2 temporary accept errors among the offers; connection A suffers one fault from {handler panic, undecodable header with trailing bytes, disconnect in the middle of a message} at every position 1..3 of its three-message sequence; connections B, C and D exchange two request/answer pairs each with bodies that name their connection (the handler checks that the body belongs to the header); after A's fault the application registers a further handler on the running ServeMux, and the first handler of D also writes to A's (failed) diam.Conn, which must simply return an error; C and D are offered only after that, and C's first message is held inside its body until D has been served completely (so a read buffer shared across connections is overwritten); every ordering of environment steps, timers and blocking hand-overs at preemption bound 0 (quick: each accept placement with three of the nine fault/position pairs; thorough: the full product, and preemption bound 1 for the placement without accept errors); back-off sleeps run on the virtual clock. One scenario accepts a connection as TLS while its peer sends plain Diameter (the handshake fails: the transport must be closed, the other connection served). Three further scenarios (preemption bound 1, thorough 2) put the fault at the third message of a connection whose first handler has requested CloseNotify, so that the notifier goroutine is running when the connection fails.",
 		Assume: []string{"data-race freedom between visible operations (audited separately with -race)"},
 		QuickBudget: 150, ThoroughBudget: 2400,
 	}
@@ -124,6 +125,7 @@ type srvOpts struct {
 	reports   bool           // start the error-report observer
 	defaultMux bool          // Server.Handler is nil: the package-level DefaultServeMux dispatches
 	notifyOn  string         // connection whose first handler requests CloseNotify (starts the pipe copier)
+	tlsOn     string         // this connection is accepted as a *tls.Conn (server side); its peer sends plain Diameter, so the TLS handshake fails
 	relayTo   string         // the late connection's first handler also writes to this (by then failed) connection's diam.Conn
 	registerLate bool        // a handler is registered at run time after the fault, before the late connection is offered
 	held      string         // late connection whose first message is cut inside its body; the rest follows only after heldAfter was fully answered
@@ -222,7 +224,11 @@ func srvBody(o srvOpts) func() {
 				for k := 0; k < o.tempBefore[i]; k++ {
 					lis.Offer(vnet.AcceptItem{Temp: true})
 				}
-				lis.Offer(vnet.AcceptItem{Conn: c})
+				if o.tlsOn == n {
+					lis.Offer(vnet.AcceptItem{Conn: c, NetConn: tls.Server(c, &tls.Config{MinVersion: tls.VersionTLS12})})
+				} else {
+					lis.Offer(vnet.AcceptItem{Conn: c})
+				}
 			}
 		}
 		if o.late != "" {
@@ -422,7 +428,7 @@ func c15Scenarios(tier string) []*Scenario {
 						bad := make([]byte, 20)
 						bad[0], bad[3] = 1, 60
 						bad[5], bad[6], bad[7] = 0xff, 0xff, 0xfe
-						c.Deliver(append(bad, make([]byte, 40)...))
+						c.Deliver(append(bad, ghost40(uint32(ci+1))...))
 					case "cut":
 						for s := 0; s < pos-1; s++ {
 							c.Deliver(srvReq(ci, s))
@@ -505,7 +511,7 @@ func c15Scenarios(tier string) []*Scenario {
 				bad := make([]byte, 20)
 				bad[0], bad[3] = 1, 60
 				bad[5], bad[6], bad[7] = 0xff, 0xff, 0xfe
-				c.Deliver(append(bad, make([]byte, 40)...))
+				c.Deliver(append(bad, ghost40(uint32(ci+1))...))
 			case "cut":
 				m := srvReq(ci, 2)
 				c.Deliver(m[:len(m)-7])
@@ -540,7 +546,51 @@ func c15Scenarios(tier string) []*Scenario {
 		out = append(out, &Scenario{Name: "faults/closenotify-active/" + fault + "@3", Body: srvBody(o), Check: check, Bound: b, Horizon: 20 * time.Second, Weight: 5,
 			Outcome: func(s *vs.Sched) string { return fmt.Sprintf("events=%d end=%v", len(srvSt.events), s.EndTime) }})
 	}
+	// a connection accepted as TLS whose peer speaks plain Diameter: the handshake fails, the
+	// transport must be closed, the other connection is served
+	{
+		o := srvOpts{names: []string{"A", "B"}, nmsg: 2, pattern: map[string]string{"A": "one", "B": "each"}, panicAt: map[string]int{}, reports: true, tlsOn: "A"}
+		check := func(s *vs.Sched) string {
+			st := srvSt
+			v, handled := srvAnalyse(st, o.names)
+			if handled["A"] != 0 {
+				v = append(v, "messages of the connection whose TLS handshake failed were handled")
+			}
+			if handled["B"] != 2 || fmt.Sprint(answersOn(st.conns["B"])) != "[1 2]" {
+				v = append(v, fmt.Sprintf("healthy connection B: %d of 2 requests handled, answers %v", handled["B"], answersOn(st.conns["B"])))
+			}
+			if st.conns["B"].Closed {
+				v = append(v, "healthy connection B was closed")
+			}
+			if !st.conns["A"].Closed {
+				v = append(v, "undecodable input (a failed TLS handshake): the connection's transport was not closed")
+			}
+			if st.served {
+				v = append(v, "Serve returned")
+			}
+			if b := s.BlockedLib(); len(b) > 1 {
+				_ = b
+			}
+			for _, p := range s.Panics() {
+				v = append(v, "panic escaped: "+p)
+			}
+			return strings.Join(v, " | ")
+		}
+		out = append(out, &Scenario{Name: "faults/tls-handshake-failure", Body: srvBody(o), Check: check, Bound: 1, Horizon: 20 * time.Second, Weight: 1,
+			Outcome: func(s *vs.Sched) string { return fmt.Sprintf("events=%d closedA=%v", len(srvSt.events), srvSt.conns["A"].Closed) }})
+	}
 	return out
+}
+
+// ghost40 is what follows an undecodable header inside its declared length: 40 bytes that are,
+// byte for byte, a complete well-formed request the peer never sent as a message of its own. A
+// reader that keeps going after rejecting the header would dispatch it.
+func ghost40(hbh uint32) []byte {
+	b := refcodec.EncodeMessage(refcodec.Header{Version: 1, Flags: 0x80, Code: 280, App: 0, HbH: hbh, E2E: 99}, []refcodec.Node{ident(264, "ghost.exampl")})
+	if len(b) != 40 {
+		panic("ghost40")
+	}
+	return b
 }
 
 func indexOfStr(l []string, s string) int {
